@@ -20,21 +20,21 @@ PROPS = {
         "assumptions": ["Draft-6 validation spec section 6 frozen as keyword-keyed tables in the checker"],
     },
     "C02": {
-        "rules": ["K5", "T10", "T3", "N3", "G11"],
+        "rules": ["K5", "T10", "T3", "N3", "G11", "T12", "T14", "T13", "D3"],
         "decides": "schema text reaches emitted source only through repr()/checked emitters/identifiers; every "
                    "annotation name is importable; import discovery walks every keyword position; class names "
                    "are guarded; declaration order obligations of C11.",
         "not_decided": "equality of the executed module with the parsed model; de-duplication correctness.",
     },
     "C03": {
-        "rules": ["K2", "K4", "T1", "T3", "T6"],
+        "rules": ["K2", "K4", "T1", "T3", "T6", "T13", "D3"],
         "decides": "no keyword value is overwritten or deleted on the way out; properties and required are "
                    "emitted under JSON names; every constructor keyword is in the enumeration the serializer "
                    "walks; every nested position is recursed; type names invert the parser's.",
         "not_decided": "that the emitted document accepts the same values; $ref resolvability for multi-root calls.",
     },
     "C04": {
-        "rules": ["G12", "P1"],
+        "rules": ["G12", "P1", "G3", "G4", "G5"],
         "decides": "containers are rebuilt from all members in order with no filter; scalar construction is the "
                    "identity except Number's float(); the input is never written.",
         "not_decided": "key collisions between JSON and Python names in the result; which composition branch builds it.",
@@ -47,13 +47,13 @@ PROPS = {
         "not_decided": "conversion 'exactly as if supplied' for nested defaults beyond G6 + purity.",
     },
     "C06": {
-        "rules": ["T1", "T2", "T6", "K1", "K2", "K3", "K4"],
+        "rules": ["T1", "T2", "T6", "K1", "K2", "K3", "K4", "K7", "D3"],
         "decides": "structural preconditions of the round trip: parser, serializer, repr and class generator "
                    "enumerate the same keywords; nothing read is dropped; falsy values survive; names keep their kind.",
         "not_decided": "the identity itself.",
     },
     "C07": {
-        "rules": ["K1", "K3", "K7", "K5"],
+        "rules": ["K1", "K3", "K7", "K5", "K8"],
         "decides": "a default extracted from the schema is re-attached on every path, never filtered by "
                    "truthiness; only the auto-title annotation is stripped from literals; the description reaches "
                    "the docstring only through an escaping emitter.",
@@ -87,14 +87,14 @@ PROPS = {
                         "JSON numbers are finite or the IEEE infinities/NaN produced by json.loads"],
     },
     "C11": {
-        "rules": ["T3", "G11"],
+        "rules": ["T3", "G11", "T13"],
         "decides": "every keyword position a dependency can hide in is walked with the right shape; cycles are "
                    "tested before anything is yielded and refused with the schema-parse error; the loop removes "
                    "one class per iteration.",
         "not_decided": "correctness of the ordering for every graph (algorithmic, not a shape).",
     },
     "C12": {
-        "rules": ["N1", "N2", "N3", "T7"],
+        "rules": ["N1", "N2", "N3", "T7", "T14", "T12"],
         "decides": "output alphabet / first character of mapped attribute names, reserved suffix applied last and "
                    "closed; collision handling present; class-name guard present; reserved list covers instance storage.",
         "not_decided": "that dedupe's numeric suffixes never collide with formatted titles.",
@@ -121,28 +121,28 @@ PROPS = {
         "not_decided": "equivalence with the flat class.",
     },
     "C16": {
-        "rules": ["G8", "T5", "X1"],
+        "rules": ["G8", "T5", "X1", "P4"],
         "decides": "miss => warn and accept; hit => checker's answer; re-registration replaces; non-strings never "
                    "reach the checker; built-in checkers cannot leak an exception.",
         "not_decided": "that uuid.UUID / dateutil accept every canonical UUID / RFC 3339 timestamp (facts about "
                        "third-party code).",
     },
     "C17": {
-        "rules": ["G10", "T2", "K6b"],
+        "rules": ["G10", "T2", "K6b", "P4"],
         "decides": "class-guard idiom gives exact-type, symmetric equality; equality inspects every configuration "
                    "attribute; Property equality covers every field; literal comparison inside equality.",
         "not_decided": "'serialize to the same JSON' for classes (names are deliberately not part of equality).",
         "assumptions": ["CPython subclass-first reflected rich comparison"],
     },
     "C18": {
-        "rules": ["T2", "R1", "R2"],
+        "rules": ["T2", "R1", "R2", "P4"],
         "decides": "every constructor parameter is stored under its own name so the signature-driven repr can read "
                    "it; repr skips exactly values equal to the parameter default and renders everything through "
                    "repr; no stray __repr__ overrides.",
         "not_decided": "eval(repr(x)) == x.",
     },
     "C19": {
-        "rules": ["G7", "A1", "A2", "A3"],
+        "rules": ["G7", "A1", "A2", "A3", "G3"],
         "decides": "Maybe[] dropped only for required-or-defaulted; leaf annotations agree with the type validator "
                    "and construct; union/list annotations draw from every contributing element; the composition "
                    "result comes from an element the annotation drew from.",
